@@ -60,6 +60,7 @@ type ptSolver struct {
 	kstores      [][2]int
 	stores       [][2]int
 	ccopy        [][2]int
+	rcopies      [][2]int // dst receives everything reachable from src (callbacks of external callees)
 	dyn          []ptDyn
 	sinks        []ptSink
 	ext          []ptExtCall
@@ -73,6 +74,10 @@ type ptDyn struct {
 	fnNode int
 	call   ssa.CallInstruction
 	bound  map[*ssa.Function]bool
+	// extArgs: for a function value handed to an external callee (call ==
+	// nil), the nodes of the other arguments: the callee may call back with
+	// anything reachable from them (ast.Inspect hands out the nodes of the tree)
+	extArgs []int
 }
 
 func newPtSolver(L *Loaded, stringsCarry bool) *ptSolver {
@@ -583,7 +588,13 @@ func (s *ptSolver) genCall(f *ssa.Function, c ssa.CallInstruction) {
 		// function-valued arguments are called back
 		for _, a := range com.Args {
 			if _, ok := a.Type().Underlying().(*types.Signature); ok {
-				s.dyn = append(s.dyn, ptDyn{fnNode: s.node(a), call: nil, bound: map[*ssa.Function]bool{}})
+				var others []int
+				for _, b := range com.Args {
+					if _, isF := b.Type().Underlying().(*types.Signature); !isF {
+						others = append(others, s.node(b))
+					}
+				}
+				s.dyn = append(s.dyn, ptDyn{fnNode: s.node(a), call: nil, bound: map[*ssa.Function]bool{}, extArgs: others})
 			}
 		}
 		if val != nil && extSubSlice(pkg, cname) && len(com.Args) > 0 {
@@ -711,6 +722,15 @@ func (s *ptSolver) solve() {
 				}
 			}
 		}
+		for _, c := range s.rcopies {
+			// dst receives everything reachable from src
+			if len(s.pts[c[1]]) == 0 {
+				continue
+			}
+			if s.addAll(c[0], s.closure(s.pts[c[1]])) {
+				changed = true
+			}
+		}
 		for i := range s.dyn {
 			d := &s.dyn[i]
 			for o := range s.pts[d.fnNode] {
@@ -721,6 +741,13 @@ func (s *ptSolver) solve() {
 				d.bound[fn] = true
 				changed = true
 				s.reach(fn)
+				if d.call == nil {
+					for _, p := range fn.Params {
+						for _, an := range d.extArgs {
+							s.rcopies = append(s.rcopies, [2]int{s.node(p), an})
+						}
+					}
+				}
 				if d.call != nil {
 					args := d.call.Common().Args
 					for i, p := range fn.Params {
